@@ -175,22 +175,36 @@ func ListSolarFromBaZiBySectAndBaseYear(yearGanZhi string, monthGanZhi string, d
 					solarTime = solarTime.Next(d, false)
 				}
 				for _, hour := range hours {
-					mi := 0
-					s := 0
-					if d == 0 && hour == solarTime.GetHour() {
-						// 如果正好是节令当天，且小时和节令的小时数相等的极端情况，把分钟和秒钟带上
-						mi = solarTime.GetMinute()
-						s = solarTime.GetSecond()
+					// 时辰的代表时刻取偶数整点；若下一个节令落在该时辰的前一个小时内，整点已属下个月，再试时辰的起始整点
+					tries := [][]int{{0, hour}}
+					if hour > 0 && hour%2 == 0 {
+						tries = append(tries, []int{0, hour - 1})
+					} else if hour == 0 && 1 == sect {
+						tries = append(tries, []int{-1, 23})
 					}
-					// 验证一下
-					solar := NewSolar(solarTime.GetYear(), solarTime.GetMonth(), solarTime.GetDay(), hour, mi, s)
-					lunar := solar.GetLunar()
-					dgz := lunar.GetDayInGanZhiExact()
-					if 2 == sect {
-						dgz = lunar.GetDayInGanZhiExact2()
-					}
-					if strings.Compare(lunar.GetYearInGanZhiExact(), yearGanZhi) == 0 && strings.Compare(lunar.GetMonthInGanZhiExact(), monthGanZhi) == 0 && strings.Compare(dgz, dayGanZhi) == 0 && strings.Compare(lunar.GetTimeInGanZhi(), timeGanZhi) == 0 {
-						l.PushBack(solar)
+					for _, try := range tries {
+						day := solarTime
+						if try[0] != 0 {
+							day = solarTime.NextDay(try[0])
+						}
+						mi := 0
+						s := 0
+						if d == 0 && try[0] == 0 && try[1] == solarTime.GetHour() {
+							// 如果正好是节令当天，且小时和节令的小时数相等的极端情况，把分钟和秒钟带上
+							mi = solarTime.GetMinute()
+							s = solarTime.GetSecond()
+						}
+						// 验证一下
+						solar := NewSolar(day.GetYear(), day.GetMonth(), day.GetDay(), try[1], mi, s)
+						lunar := solar.GetLunar()
+						dgz := lunar.GetDayInGanZhiExact()
+						if 2 == sect {
+							dgz = lunar.GetDayInGanZhiExact2()
+						}
+						if strings.Compare(lunar.GetYearInGanZhiExact(), yearGanZhi) == 0 && strings.Compare(lunar.GetMonthInGanZhiExact(), monthGanZhi) == 0 && strings.Compare(dgz, dayGanZhi) == 0 && strings.Compare(lunar.GetTimeInGanZhi(), timeGanZhi) == 0 {
+							l.PushBack(solar)
+							break
+						}
 					}
 				}
 			}
